@@ -608,14 +608,7 @@ fn skeleton(aws: &J) -> Result<SV, String> {
                 let mut ds = Vec::new();
                 for d in arr {
                     let dobj = d.as_obj().ok_or("directive is not an object")?;
-                    for (dk, _) in dobj {
-                        if !matches!(dk.as_str(), "Namespace" | "Dimensions" | "Metrics") {
-                            return Err(format!("unknown directive member `{dk}`"));
-                        }
-                    }
-                    if dobj.len() != 3 {
-                        return Err("directive does not have exactly Namespace, Dimensions, Metrics".into());
-                    }
+                    let _ = dobj; // members other than Namespace / Dimensions / Metrics are not judged
                     let ns = d.get("Namespace").and_then(|x| x.as_str()).ok_or("directive without Namespace string")?;
                     let dims: Vec<Vec<String>> = d
                         .get("Dimensions")
@@ -637,7 +630,7 @@ fn skeleton(aws: &J) -> Result<SV, String> {
                                 "StorageResolution" => {
                                     res = SV::String(mv.num_text().ok_or("StorageResolution is not a number")?.to_string())
                                 }
-                                other => return Err(format!("unknown metric definition member `{other}`")),
+                                _ => {} // not judged
                             }
                         }
                         metrics.push(json!({"name": name.ok_or("metric definition without Name")?, "unit": unit, "res": res}));
@@ -648,7 +641,7 @@ fn skeleton(aws: &J) -> Result<SV, String> {
                     return Err("two CloudWatchMetrics members".into());
                 }
             }
-            other => return Err(format!("unknown `_aws` member `{other}`")),
+            _ => {} // other `_aws` members are not judged
         }
     }
     Ok(json!({
